@@ -322,6 +322,8 @@ void RunCondVar(Model& md, const Case& c, int k) {
 
 static YACLIB_THREAD_LOCAL_PTR(int) tls_ptr;
 static YACLIB_THREAD_LOCAL_PTR(long) tls_other;  // a second thread-local pointer of another type must be independent
+static int tls_default_target;
+static YACLIB_THREAD_LOCAL_PTR(int) tls_init = &tls_default_target;  // like `thread_local int* p = &x;`
 
 void RunThreadTlsSleep(Model& md, const Case& c, int k) {
   std::vector<int> finished(static_cast<std::size_t>(k), 0);
@@ -340,6 +342,12 @@ void RunThreadTlsSleep(Model& md, const Case& c, int k) {
       tls_other = &other_slot[i % 8];
       if (tls_ptr.Get() != &slot[static_cast<std::size_t>(i)]) {
         md.Err("setting a second thread-local pointer overwrote the first one");
+      }
+      // a thread-local pointer with a non-null initialiser: every fiber starts from the initial value, and what a
+      // fiber stores (nullptr included) is what that fiber reads back
+      int* init_expect = &tls_default_target;
+      if (tls_init.Get() != init_expect) {
+        md.Err("fresh fiber does not see the initial value of an initialised thread-local pointer");
       }
       for (std::size_t r = 0; r < c.Records(); ++r) {
         const int* rec = c.Rec(r);
@@ -367,6 +375,17 @@ void RunThreadTlsSleep(Model& md, const Case& c, int k) {
         }
         if (tls_ptr.Get() != &slot[static_cast<std::size_t>(i)] || tls_other.Get() != &other_slot[i % 8]) {
           md.Err("thread-local pointer changed under the fiber (not per fiber)");
+        }
+        if (tls_init.Get() != init_expect) {
+          md.Err("initialised thread-local pointer does not hold what this fiber stored last");
+        }
+        if (rec[2] % 3 != 0) {
+          init_expect = rec[2] % 3 == 1 ? nullptr : &slot[static_cast<std::size_t>(i)];
+          tls_init = init_expect;
+          if (tls_init.Get() != init_expect) {
+            md.Err(init_expect == nullptr ? "a thread-local pointer reset to nullptr reads back non-null (the shared default)"
+                                          : "a thread-local pointer does not read back what was stored");
+          }
         }
       }
       finished[static_cast<std::size_t>(i)] = 1;
